@@ -236,4 +236,28 @@ def replace (c : ZipCursor α) (x y : α) : Stat × Option (α × α) × ZipCurs
 def index (c : ZipCursor α) : Nat := wdec c.done1.length
 end ZipCursor
 
+/-! ## a zip cursor over one sequence on both sides (`ar1 == ar2`): positions only; each call is the
+ideal effect of the two half-calls performed one after the other on the same list.  `dflt` stands for
+an out-value the call leaves untouched (second half of `remove` with nothing left to remove). -/
+namespace Same
+def next (xs : List α) (pos : Nat) : Stat × Option (α × α) × Nat :=
+  match xs[pos]? with
+  | some x => (.ok, some (x, x), pos + 1)
+  | none => (.iterEnd, none, pos)
+
+def remove (dflt : α) (xs : List α) (pos : Nat) (removed : Bool) : Stat × Option (α × α) × List α × Nat × Bool :=
+  if pos = 0 ∨ xs.length ≤ pos - 1 then (.errOutOfRange, none, xs, pos, removed)
+  else if removed then (.errValueNotFound, none, xs, pos, removed)
+  else
+    let x1 := (xs[pos - 1]?).getD dflt
+    let ys := xs.eraseIdx (pos - 1)
+    (.ok, some (x1, (ys[pos - 1]?).getD dflt), ys.eraseIdx (pos - 1), pos - 1, true)
+
+def add (xs : List α) (pos : Nat) (x y : α) : List α × Nat := ((xs.insertIdx pos x).insertIdx pos y, pos + 1)
+
+def replace (dflt : α) (xs : List α) (pos : Nat) (x y : α) : Stat × Option (α × α) × List α :=
+  if pos = 0 ∨ xs.length ≤ pos - 1 then (.errOutOfRange, none, xs)
+  else (.ok, some ((xs[pos - 1]?).getD dflt, x), xs.set (pos - 1) y)
+end Same
+
 end CC.Spec.SSeq
